@@ -583,6 +583,11 @@ class VecEval:
         src = nt[2][0] if nt[0] == "call" and len(nt[2]) == 1 else None
         if src is None:
             raise Unrec("next() term")
+        if unref(src)[0] == "opq":
+            # the iterator variable is loop-carried: what the loop walks is its value on entry to the loop
+            pre = [p_ for (p_, _l) in b.pred[h] if p_ not in blocks and p_ in self.R]
+            if len(pre) == 1 and it_root is not None:
+                src = N(A.tb.read(it_root, (), (pre[0], len(b.stmts(pre[0])))))
         items = iter_seq(self.E, unref(src))
         pay = CH.payload_of(nt, 1)
 
